@@ -496,6 +496,7 @@ REGEX_OPERANDS = [("posix-extended", "a{2,1}", False), ("posix-basic", "a\\{2,1\
                   ("posix-extended", "[[=a=]-c]", False), ("emacs", "[[=a=]-[=c=]]", False), ("grep", "[a-[=z=]]", False), ("posix-extended", "[--[=b=]]", False),
                   ("posix-basic", "[]-[=b=]]", False), ("posix-extended", "[[.a.]-[=b=]]", False), ("posix-extended", "[[=b=]-]", True), ("posix-extended", "[-[=b=]]", True),
                   ("grep", "^^\\{", False), ("grep", "a\\|^^\\{", False), ("posix-basic", "^^\\+*", False), ("sed", "^^\\?\\{1\\}", False), ("grep", "^\\{1\\}", True), ("posix-basic", "^^a", True),
+                  ("posix-extended", "[a-b-c]", False), ("posix-extended", "[a-c--]", False), ("emacs", "[[.a.]-c-e]", False), ("posix-extended", "[a-c-]", True), ("posix-extended", "[%--a]", True),
                   ("posix-extended", "[[.a.]-z]", True), ("posix-extended", "[a-[.c.]]", True), ("posix-basic", "[[.a.]-[.z.]]", True), ("posix-extended", "[[.a.]\\(]", True)]
 
 
@@ -617,7 +618,8 @@ def bracket_units(ctx, forest):
     point, or a symbol names more than one character (valid and invalid by construction); every sequence of up to two units"""
     import itertools
     good = ["a", "x-z", "[.b.]", "[=c=]", "[:digit:]", "[.a.]-c", "a-[.c.]", "[.a.]-[.c.]", "!--", "%"]
-    bad = ["[=a=]-c", "a-[=c=]", "[=a=]-[=c=]", "[.a.]-[=c=]", "[:digit:]-z", "a-[:alpha:]", "[.ab.]", "[=ab=]"]
+    # (also invalid: a "-" behind a complete range that is not the last member of the bracket expression)
+    bad = ["[=a=]-c", "a-[=c=]", "[=a=]-[=c=]", "[.a.]-[=c=]", "[:digit:]-z", "a-[:alpha:]", "[.ab.]", "[=ab=]", "a-c-e", "a-b-[.c.]", "[.a.]-c-e", "a-c--"]
     cases = []
     for neg in ("", "^"):
         for first in ("", "]", "]-[=a=]", "]-[.a.]"):
